@@ -76,6 +76,38 @@ def in_loop(b, block):
     return any(block in body for body in b.cfg.loops().values())
 
 
+FAMILY_PROPS = {'map': ['C04'], 'set': ['C05'], 'key': ['C01']}
+
+
+def check_pool_mutations(ctx, prog, pool, r, fam_props):
+    """every mutation of the pool's vectors inside the pool module must be one of the recognised forms"""
+    from program import VEC_MUTATORS
+    for f in prog.fns.values():
+        if f.self_adt != pool or f.is_closure:
+            continue
+        is_ctor = f.body.locals[0]['ty'].split('<')[0] == pool
+        for c in f.body.calls:
+            nm = c.callee_name()
+            if prog.classify(c) != 'std' or nm not in VEC_MUTATORS or not c.args or not (c.args[0].ty or '').startswith('&mut'):
+                continue
+            vf = vec_field_of(prog, c.args[0])
+            if vf is None:
+                continue
+            ok = False
+            if vf == r['free'] and nm == 'push' and len(c.args) == 2 and strip(c.args[1]).kind == 'param' and f in r['release']:
+                ok = True
+            elif vf == r['free'] and nm == 'pop' and f in r['alloc']:
+                ok = True
+            elif nm in ('reserve', 'reserve_exact'):
+                ok = True
+            elif f in r['grow'] and ((vf == r['nodes'] and nm in ('resize', 'resize_with')) or (vf == r['free'] and nm == 'extend')):
+                ok = True        # form checked by grow-range
+            if not ok:
+                ctx.add('POOL', f, 'pool-mutation(%s on %s)' % (nm, '.'.join(vf)), 'violation',
+                        'unrecognised mutation of the pool: %s on %s in %s (only push(index) in the release function, pop in the allocator, and resize/extend in the growth function are known to preserve the free/in-use partition and the reserved sentinel slot)' % (nm, '.'.join(vf), f.name),
+                        PROPS_POOL + ['C02'] + fam_props, span_line(c, f.line))
+
+
 def run(ctx):
     prog = ctx.prog
     roles = pool_roles(prog)
@@ -117,8 +149,13 @@ def run(ctx):
             ctx.add('POOL', f, 'pool-vector-mutated(%s)' % c.callee_name(), 'violation', 'the pool\'s vectors are mutated outside the pool module: %s (the reserved sentinel slot and the free/in-use partition are no longer protected)' % c.callee_name(), PROPS_POOL + ['C02'], span_line(c, f.line))
         if not bad_mut:
             ctx.add('POOL', None, 'pool-encapsulated(%s)' % tree, 'ok', 'buffer and free list of %s are mutated only by the pool\'s own functions (so the sentinel slot reserved at construction is never handed out)' % tree, PROPS_POOL + ['C02'])
+        fam_props = FAMILY_PROPS.get(tree.split('::')[0], [])
+        check_pool_mutations(ctx, prog, pool, r, fam_props)
         # ---- release pairing in the removal -------------------------------------------------
+        n0 = len(ctx.instances)
         check_release(ctx, prog, rem, r)
+        for inst in ctx.instances[n0:]:
+            inst.props |= set(fam_props)
         # ---- growth -----------------------------------------------------------------------------
         for g in r['grow']:
             check_grow(ctx, prog, g, r)
@@ -126,7 +163,10 @@ def run(ctx):
             check_alloc_fn(ctx, prog, a, r)
         # ---- clear ------------------------------------------------------------------------------
         for c in clear_fn:
+            n0 = len(ctx.instances)
             check_clear(ctx, prog, c, r, store_field)
+            for inst in ctx.instances[n0:]:
+                inst.props |= set(fam_props)
     run_provenance(ctx)
 
 
